@@ -36,6 +36,12 @@ CLAIMED = {
         text="Lean theorems: a non-transparent attribute reaches write! verbatim with only the `f = *f` re-bindings, which exist exactly for fields named under Pointer and not aliased (deref_args_iff); named placeholders print the field itself; unit -> (renamed, unraw) name; single field -> Trait::fmt(field). The model's body token text equals the working tree's on generated items; ~460 generated types (random + systematic name-kind x type x trait grid) are printed with the real macro and compared byte-for-byte with a format! of the same literal under the documented bindings",
         note="Lean kernel; model tied by differential run; format_args! is the same macro on both sides; `&T` formats like `T` except under Pointer (validated by the run); convert_case is a parameter",
         ref="DESIGN.md §4 C02"),
+    "C16": dict(
+        level="proof",
+        technique="Lean 4 theorems about a model of the token scanner + correspondence on token streams + syn-full as the expression-grammar oracle",
+        text="Lean theorems over all token streams: what the scanner returns plus what it leaves is the input (verbatim re-emission), it stops only at a top-level comma, Ident iff a single identifier, commas inside delimited groups / `::<..>` / `<..>::` / closure parameter lists (angle-balanced, any nesting depth) never split; two kernel-checked witnesses document the known findings (binary `|`, cast to a generic type). The model is compared with the working-tree FmtAttribute parsing on ~6.5k generated and mutated argument lists, and the implementation with syn's full Expr parser on the same lists",
+        note="Lean kernel; proc_macro2 tokenisation shared by all parties; syn(full) stands for Rust's grammar; three known findings attributed by construct (argument parenthesised => split correct)",
+        ref="DESIGN.md §4 C16"),
 }
 
 NOT_APPLICABLE = {}
